@@ -10,6 +10,7 @@ import (
 	"fmt"
 	"io"
 	"net"
+	"sync/atomic"
 	"time"
 
 	"nhooyr.io/websocket/internal/errd"
@@ -164,6 +165,11 @@ func (c *Conn) closeHandshake(code StatusCode, reason string) error {
 
 	err = c.waitCloseHandshake()
 	if CloseStatus(err) != code {
+		// Another goroutine reading from the connection may have received the
+		// peer's close frame and be about to close the connection.
+		if StatusCode(atomic.LoadInt32(&c.closeFrameReceived)) == code {
+			return nil
+		}
 		return err
 	}
 	return nil
